@@ -26,8 +26,14 @@ ExpectedAt(c, ev, x) ==
     [] c.fam = "zo" -> {G1, <<0, 0>>}        \* data-dependent clip range: 1 inside, 0 in the clipped region, nothing else
     [] c.fam = "ref" -> {Norm(ev.r)}
 Expected(c, ev) == ExpectedAt(c, ev, ev.x) \cup (IF Denormal(ev.x) THEN ExpectedAt(c, ev, Zero) ELSE {})
+\* use_ste = False: the code differentiates (1 - f) * s(x) + stop_gradient(f * q): the surrogate gradient scaled by
+\* (1 - f).  That exact law is the recorded finding; anything else is an ordinary violation.
+ScaledLaw(c, ev) == c.fam \in {"fixed", "po2"} /\ c.ste = 0 /\
+                    Norm(ev.g) \in {Norm(Mul32(e, Sub32(G1, c.f))) : e \in Expected(c, ev)}
 Verdicts(ev) == LET c == Cf[ev.c] IN
-  IF Norm(ev.g) \in {Norm(e) : e \in Expected(c, ev)} THEN <<>> ELSE <<"grad_not_surrogate">>
+  IF Norm(ev.g) \in {Norm(e) : e \in Expected(c, ev)} THEN <<>>
+  ELSE IF ScaledLaw(c, ev) THEN <<"grad_is_the_surrogate_gradient_scaled_by_one_minus_qnoise">>
+  ELSE <<"grad_not_surrogate">>
 Init == i = 1
 Next == /\ i <= Len(Tr)
         /\ LET v == Verdicts(Tr[i]) IN IF v # <<>> THEN PrintT(<<"REJECT", i, v>>) ELSE TRUE
